@@ -581,6 +581,9 @@ func (fr *Frame) checkEnsuresAt(suffix string) {
 	saveGuard := c.guard
 	c.guard = reach
 	for i, cl := range fr.con.Ensures {
+		if !clauseInProperty(cl) {
+			continue
+		}
 		t, err := ec.evalClause(cl.Expr)
 		if err != nil {
 			c.stale = append(c.stale, fmt.Sprintf("%s:%d: %v", cl.File, cl.Line, err))
@@ -752,4 +755,20 @@ func (fr *Frame) frameExcept() []Term {
 		}
 	}
 	return fr.except
+}
+
+// checkedProperty is the property of the current `govc check` run ("" for dump / selftest of everything).
+var checkedProperty string
+
+// clauseInProperty: a clause labelled `[Cnn: name]` is generated only when property Cnn is being checked.
+func clauseInProperty(cl *Clause) bool {
+	if len(cl.OnlyProps) == 0 || checkedProperty == "" {
+		return true
+	}
+	for _, p := range cl.OnlyProps {
+		if p == checkedProperty {
+			return true
+		}
+	}
+	return false
 }
